@@ -59,7 +59,7 @@ func CheckC11(tier string, seed uint64, rep *core.Reporter) (*core.Evidence, err
 			}
 		}
 		res, err := w.RunShards(w.Runsim, "c11", bseed, runs, 14, nil, nil, 40*time.Minute)
-		if err == nil && b == 0 && len(res.Violations) == 0 {
+		if err == nil && b == 0 && newViolations(rep, res) == 0 {
 			detHash, err = w.DeterminismProbe(w.Runsim, "c11", bseed, 300, nil)
 		}
 		rejected += w.Rejected
@@ -118,7 +118,7 @@ func CheckC11(tier string, seed uint64, rep *core.Reporter) (*core.Evidence, err
 			"components_real":        []string{"lox binary built from the current tree", "generated _LexerStateMachine compiled by the Go compiler", "unmodified loxlex/simplelexer driver"},
 			"components_simulated":   []string{"the byte stream (content and where it ends)", "liveness budget in PushRune calls and ticks"},
 			"components_stubbed":     []string{"the parser is not involved"},
-			"determinism_probe":      "same seed re-run with 14 shards/GOMAXPROCS=4 and 5 shards/GOMAXPROCS=1: all counters identical, hash " + detHash,
+			"determinism_probe":      probeText(detHash),
 			"stats_hash":             total.StatsHash(),
 			"known_findings_hit":     rep.KnownHits,
 		},
